@@ -2,6 +2,7 @@
 variants of each write) is materialised, projected and handed to Dataset_Eval; the real reader is run on it."""
 from __future__ import annotations
 
+import re
 import shutil
 import tempfile
 import traceback
@@ -93,6 +94,7 @@ def judge_job(arg: dict) -> dict:
            "trace": []}
     trace = out["trace"]
     cur_w, nwrites, fdir = {}, {}, []
+    e_args_of_abort = {}
     multi = {"k": 0, "done": 0}
     tmp = Path(tempfile.mkdtemp(prefix="verif_crash_"))
     try:
@@ -168,7 +170,11 @@ def judge_job(arg: dict) -> dict:
                             api("BeginFiller", dir=list(fdir))
                         elif nm == "MultiBegin":
                             multi["k"], multi["done"] = e["args"][0], 0
+                            multi["abort"] = False
                             api("MultiBegin", K=e["args"][0])
+                        elif nm == "MultiAbort":
+                            multi["abort"] = True      # the call is going to fail: the parent never merges
+                            e_args_of_abort["j"] = e["args"][0]
                         elif nm == "ExitFiller" and e["args"][0] == 0:
                             api("ExitFiller", dir=list(fdir))
                         elif nm == "Write" and e["args"][0] == 0:
@@ -191,6 +197,10 @@ def judge_job(arg: dict) -> dict:
                                 api("SessionDone")
                         if nm == "MultiEnd" and not e.get("fail"):
                             api("MultiDone")
+                        if nm == "MultiAbort":
+                            api("MultiAbort", K=e_args_of_abort.get("j", 1))
+                            out["aborted"] = out.get("aborted", 0) + 1
+                            multi["k"] = 0
                         if e.get("done") is not None:
                             done[:] = e["done"]
                 else:  # markers of a multi-writer worker (possibly the same process when single_process)
@@ -198,7 +208,7 @@ def judge_job(arg: dict) -> dict:
                         cur_w[e["pid"]] = [e["dir"]]
                     elif ev == "b" and nm == "Write":
                         w = e["w"]
-                        pid = int(w[1:]) if w[1:].isdigit() else 1
+                        pid = int(re.search(r"(\d+)$", w).group(1)) if re.search(r"(\d+)$", w) else 1
                         wlog[e["id"]] = {"id": e["id"], "sess": nsess, "pid": pid, "split": e["split"],
                                          "md": e["md"], "kind": e["kind"], "acc": True}
                         idmap[e["id"]] = len(idmap) + 1
@@ -211,7 +221,7 @@ def judge_job(arg: dict) -> dict:
                     elif ev == "we":
                         cur_w.pop(e["pid"], None)
                         multi["done"] += 1
-                        if multi["done"] == multi["k"]:
+                        if multi["done"] == multi["k"] and not multi.get("abort"):
                             api("MultiEnd")
                 continue
             if not mat.relevant(e):
@@ -277,6 +287,7 @@ def judge_job(arg: dict) -> dict:
             st["files"] = dsreal.files_to_json(cfiles)
             st["mem"] = info["splits"] if isinstance(info, dict) and info.get("kind") == "info" else {"none": True}
             st["checks"] = list(arg["final_checks"])
+            st["aborted"] = out.get("aborted", 0)
             st["wlog"] = [wlog[i] for i in sorted(wlog)]
             st["done"] = list(done)
             st["point"] = "final state"
